@@ -8,9 +8,10 @@ sigs = collections.defaultdict(set)
 for f in sorted(glob.glob("/verif/known_findings/C*.json")):
     k = json.load(open(f))
     for x in k.get("fixed", []):
-        c = str(x.get("commit", ""))[:7]
-        props[c].add(x.get("property", f[-8:-5]))
-        sigs[c].add(x.get("sig", x.get("signature", "")))
+        for c in str(x.get("commit", "")).replace(",", " ").split():
+            c = c[:7]
+            props[c].add(x.get("property", f[-8:-5]))
+            sigs[c].add(x.get("sig", x.get("signature", "")))
 print("| commit | defect (first line of the commit message) | properties | findings closed |")
 print("|---|---|---|---|")
 for l in log:
